@@ -62,6 +62,21 @@ fn all_deque_ops() -> Vec<Op> {
 }
 
 pub fn profile(prop: &str) -> Option<Profile> {
+    // "<ID>huge": capacity 160 only (with 128-byte elements the array is 20 KiB)
+    if prop.len() == 7 && prop.ends_with("huge") {
+        let mut q = profile(&prop[..3])?;
+        q.only_n = vec![160];
+        q.prop = match &prop[..3] {
+            "C01" => "C01huge",
+            "C03" => "C03huge",
+            "C07" => "C07huge",
+            "C09" => "C09huge",
+            "C17" => "C17huge",
+            "C20" => "C20huge",
+            _ => return None,
+        };
+        return Some(q);
+    }
     // "<ID>big": the profile of <ID> at capacity 40 only (size thresholds inside the crate)
     if prop.len() == 6 && prop.ends_with("big") && prop != "C17big" {
         let mut q = profile(&prop[..3])?;
